@@ -144,6 +144,19 @@ pub fn intern_keeps_rooted() -> bool {
   st.intern_len == 1 && st.obj_len == 1 && &*x == "ab" && gc.verif_intern_consistent()
 }
 
+/// a live string that was PROMOTED by an earlier collection stays interned across a later NURSERY collection (the old generation is
+/// only unmarked there: the intern sweep must see the marks before that loop runs)
+pub fn intern_promoted_survives_nursery() -> bool {
+  let mut gc = ManuallyDrop::new(Allocator::default());
+  let x = gc.manage_str("ab", &NO_GC);
+  let roots = Roots::<1> { boxes: [None], strs: [Some(x)] };
+  gc.collect_garbage(&roots);                      // collection 1 (nursery): x is promoted
+  let mid = gc.verif_stats();
+  gc.collect_garbage(&roots);                      // collection 2 (nursery): x lives in the old generation
+  let st = gc.verif_stats();
+  mid.obj_len == 1 && mid.intern_len == 1 && st.intern_len == 1 && st.obj_len == 1 && &*x == "ab" && gc.verif_intern_consistent()
+}
+
 #[cfg(kani)]
 mod proofs {
   use super::*;
@@ -196,6 +209,12 @@ mod proofs {
   #[kani::stub(<ObjectHandle as std::ops::Drop>::drop, drop_stub)]
   #[kani::stub(<laythe_core::ObjectRef as Trace>::trace, no_children)]
   fn o09_intern_keeps_rooted() { assert!(intern_keeps_rooted()); }
+
+  #[kani::proof]
+  #[kani::unwind(10)]
+  #[kani::stub(<ObjectHandle as std::ops::Drop>::drop, drop_stub)]
+  #[kani::stub(<laythe_core::ObjectRef as Trace>::trace, no_children)]
+  fn o09_intern_promoted_survives_nursery() { assert!(intern_promoted_survives_nursery()); }
 
   #[kani::proof]
   #[kani::unwind(10)]
